@@ -237,13 +237,8 @@ def check_deny_reasons(ctx):
                     and not c.pol for c in p.conds)
         failed = any(c.kind == 'exc' and 'KeyError' in str(
             getattr(c.expr, 'value', '')) for c in p.conds)
-        gated = False
-        for c in p.conds:
-            if c.kind == 'test' and not c.pol and isinstance(
-                    c.expr, ast.Name) and isinstance(
-                        t.en.defs.get(c.expr.id), ast.Call) and \
-                    prog.callee_of(enf, t.en.defs[c.expr.id]) is gate:
-                gated = True
+        from ..enforce_model import gate_cond
+        gated = any(gate_cond(t, c) and not c.pol for c in p.conds)
         if not (empty or failed or gated) and bad is None:
             bad = p
     ctx.ob('C03.FAIL-CLOSED', bad is None, W, enf.qual,
@@ -271,26 +266,50 @@ def check_default_src(ctx):
     prog = ctx.prog
     init = prog.func(POLICY + '.Enforcer.__init__')
     W = lambda n: ctx.where(init.module, n)
-    src = None
-    for n in ast.walk(init.node):
-        if isinstance(n, ast.Assign) and any(
-                self_attr(t) == 'default_rule' for t in n.targets):
-            src = n
-    if src is None:
-        raise AnalysisError('Enforcer.__init__ does not set default_rule')
-    v = src.value
-    ok = isinstance(v, ast.BoolOp) and isinstance(v.op, ast.Or) and len(
-        v.values) == 2 and U(v.values[0]) == 'default_rule' and U(
-            v.values[1]).endswith('.oslo_policy.policy_default_rule')
-    if not ok and isinstance(v, ast.IfExp):
-        ok = U(v.test) in ('default_rule', 'default_rule is not None') and \
-            U(v.body) == 'default_rule' and U(v.orelse).endswith(
-                '.oslo_policy.policy_default_rule')
-    ctx.ob('C03.DEFAULT-SRC', ok, W(src), init.qual, U(src),
-           'default rule = constructor argument, else option '
-           'policy_default_rule' if ok else
-           'the enforcer\'s default rule is not `constructor argument or '
-           'option policy_default_rule`')
+    from ..dte import inline_helpers
+    ti = Table(prog, init, inline=inline_helpers(
+        prog, modules={POLICY}, exclude={POLICY + '.Enforcer.load_rules',
+                                         POLICY + '.Enforcer.set_rules'}),
+        handler_paths=False)
+    nst = 0
+    bad = None
+    opt_tail = '.oslo_policy.policy_default_rule'
+    for p in ti.paths:
+        st = [e for e in p.events if e.kind == 'store'
+              and U(e.node) == 'self.default_rule']
+        if not st:
+            if p.outcome.kind != 'raise':
+                bad = bad or (p, None, 'a path of the constructor leaves '
+                              'the default rule unset')
+            continue
+        e = st[-1]
+        nst += 1
+        v = ti.expand(e.value)
+        given = [c.pol for c in p.conds if c.kind == 'test' and U(c.expr) in (
+            'default_rule',)]
+        notnone = [not c.pol for c in p.conds if c.kind == 'test' and U(
+            c.expr) == 'default_rule is None']
+        given = given + notnone
+        if isinstance(v, ast.BoolOp) and isinstance(v.op, ast.Or) and len(
+                v.values) == 2 and U(v.values[0]) == 'default_rule' and U(
+                    v.values[1]).endswith(opt_tail):
+            continue
+        if given and given[-1] and U(v) == 'default_rule':
+            continue
+        if given and not given[-1] and U(v).endswith(opt_tail):
+            continue
+        bad = bad or (p, e, 'self.default_rule = %s on path %s' % (
+            U(v)[:60], p.cond_text()[-120:]))
+    ok = bad is None and nst > 0
+    ctx.ob('C03.DEFAULT-SRC', ok, '%s:%d' % (
+        ctx.where(init.module, init.node).split(':')[0], bad[1].line)
+        if bad and bad[1] is not None else W(init.node), init.qual,
+        'self.default_rule (%d paths)' % nst,
+        'default rule = constructor argument, else option '
+        'policy_default_rule' if ok else
+        'the enforcer\'s default rule is not `constructor argument or '
+        'option policy_default_rule` (%s)' % (
+            bad[2] if bad else 'never stored'))
     # every Rules store built inside Enforcer carries self.default_rule
     enf_cls = prog.cls(POLICY + '.Enforcer')
     nsites = 0
@@ -331,11 +350,22 @@ def check_default_src(ctx):
            'enforcer never configured')
     for name in ('load', 'from_dict'):
         f = prog.func(RULES + '.' + name)
-        fw = False
-        for c in ast.walk(f.node):
-            if isinstance(c, ast.Call) and U(c.func) == 'cls':
-                dr = kwarg(c, 'default_rule', 1)
-                fw = dr is not None and U(dr) == 'default_rule'
+        tf = Table(prog, f, inline=inline_helpers(
+            prog, modules={POLICY},
+            exclude={POLICY + '.parse_file_contents'}), handler_paths=False,
+            max_depth=4)
+        fw = None
+        for p in tf.paths:
+            if p.outcome.kind != 'return' or p.outcome.expr is None:
+                continue
+            e = tf.expand(p.outcome.expr)
+            good = False
+            if isinstance(e, ast.Call) and (U(e.func) == 'cls' or prog.resolve(
+                    f.module, e.func) == RULES):
+                dr = kwarg(e, 'default_rule', 1)
+                good = dr is not None and U(dr) == 'default_rule'
+            fw = good if fw is None else (fw and good)
+        fw = bool(fw)
         ctx.ob('C03.DEFAULT-SRC', fw, ctx.where(f.module, f.node), f.qual,
                'Rules.%s' % name, 'forwards default_rule to the store'
                if fw else 'Rules.%s drops its default_rule argument' % name)
